@@ -115,7 +115,7 @@ Fixpoint table_agrees (s : sstate cstate) (ops : list (ev (list Z) * Z)) (news :
       | SPanic => None
       | SOk s1 outs =>
           let n := blen (filter (fun x => match x with SNew _ _ => true | _ => false end) outs) in
-          let res := fold_left (fun acc x => match x with SConn id => id | SErrNewConn => -1 | _ => acc end) outs (-2) in
+          let res := fold_left (fun acc x => match x with SConn _ id => id | SErrNewConn _ => -1 | _ => acc end) outs (-2) in
           if res =? o then table_agrees s1 r (news + n) else None
       end
   end.
